@@ -104,6 +104,7 @@ var syncMethods = map[string]string{
 	"WaitGroup.Add": "WGAdd", "WaitGroup.Done": "WGDone", "WaitGroup.Wait": "WGWait",
 	"Once.Do":   "OnceDo",
 	"Cond.Wait": "CondWait", "Cond.Signal": "CondSignal", "Cond.Broadcast": "CondBroadcast",
+	"Pool.Get": "PoolGet", "Pool.Put": "PoolPut",
 }
 
 var fileMethods = map[string]string{"Sync": "FSync", "Seek": "FSeek", "Close": "FClose", "Read": "FRead", "Write": "FWrite"}
